@@ -3,8 +3,10 @@ REG = dict(
         "IEEE-754 rounding inside numpy/scipy is not modelled: the theorems are about exact real arithmetic (Real.rpow, Real.Gamma); the gap "
         "is measured on every run against the property's 1e-6 / 2e-5 / 1e-8 (b-a) / 100 max(atol, 1e-6 scale)",
         "scipy.special.loggamma vs the model's Stirling logGammaF (compared to 1e-11 relative + 4x the +-8-ulp jitter spread; observed <= 0.2% of that)",
-        "noisy quantile curve: accuracy is C07's bisection bound, conditional on monotonicity and a Lipschitz constant of the real cdf (numerical, "
-        "C06); model comparison reuses the noisy.ppf op (ties within the jitter allowance are skipped)",
+        "noisy quantile curve: |F(qtc) - level| <= 2e-5 is a theorem at exact real arithmetic for even c <= 100 (every regime) and for c = 9, "
+        "c = 5 with o/(b-a) < 1/5, c = 3 with o/(b-a) < 1/50 (series regime, shipped table); for c = 1, c = 7 and the remaining scales of "
+        "c = 3, 5 it is C07's bisection bound, conditional on monotonicity and a Lipschitz constant of the real cdf (numerical, "
+        "C06), and is measured; model comparison reuses the noisy.ppf op (ties within the jitter allowance are skipped)",
         "integrated average curve: the accuracy clause is NOT a theorem (C08.stop_rule_not_a_bound); it is decided on every run by adaptive "
         "Gauss-Legendre quadrature of the class's own cdf; the model of the documented loop is followed for at most 2^15 integrand evaluations",
         "fork + RLIMIT_AS + wall-clock timeout as the observation of 'returns without unbounded memory growth'",
@@ -18,7 +20,11 @@ TEXT = dict(
     level="Universal Lean theorems: noiseless quantile curve hits the level q^(1/n) resp. 1-(1-q)^(1/n) exactly (every real n>0), minimize=None "
           "is minimize=convex; E[max of n draws of U^(2/c)] = n/(n+2/c) and E[min] = Gamma(n+1)Gamma(1+2/c)/Gamma(n+1+2/c) for real n>0 (Beta "
           "integral), the four code branches are these composed with the affine map, the curve is monotone in n in the direction of "
-          "optimisation and stays in [a,b]; noisy quantile curve = ppf at the level, bisection accuracy conditional on a Lipschitz cdf; "
+          "optimisation and stays in [a,b]; noisy quantile curve = ppf at the level, the level lies strictly inside (0,1) for q in (0,1) and real n>0, and "
+          "|F(quantile_tuning_curve(n,q,minimize)) - level| <= 2e-5 UNCONDITIONALLY in exact real arithmetic for even c <= 100 (all regimes, "
+          "noisy_qtc_hits_level_even) and for c = 9 at every scale, c = 5 with o/(b-a) < 1/5, c = 3 with o/(b-a) < 1/50 of the series regime "
+          "(noisy_qtc_hits_level_odd_partial; both shapes, both directions, minimize=None), otherwise the bisection accuracy conditional on a "
+          "Lipschitz cdf; "
           "the integration loop's state is exactly the composite trapezoid sum on 2^i panels, what it returns is such a sum at a round i>3 "
           "with |T_i-T_(i-1)|<3 atol (`_partial`), tail bookkeeping max(0,lo)+min(0,hi); NEGATIVE result decided by the kernel on the loop "
           "model at Rat: a continuous CDF for which the rule stops at round 4 with error 30000 atol (so the accuracy clause cannot be a "
@@ -27,5 +33,6 @@ TEXT = dict(
           "call under a memory/time guard.",
     note="Findings on the unchanged tree: F4 (premature convergence of the trapezoid rule when 0 lies inside [a-6o,b+6o]) and F5 (a=b, o=0 "
          "never returns). Not proved: the accuracy of the integrated curve (false for the documented algorithm in general), the "
-         "Lipschitz constant of the noisy cdf.",
+         "noisy quantile clause for c = 1, c = 7, c = 5 at scales >= 0.2, c = 3 at scales >= 0.02 (series regime; C07's bound exceeds the "
+         "tolerance there) and under IEEE rounding.",
 )
